@@ -164,6 +164,18 @@ def run_shard(spec):
         if extra:
             res["inconclusive"].append(f"mnemonics accepted by the assembler but unknown to the reference (not judged): {extra}")
         cnt["mnemonic_set_compared"] = len(refset)
+    # branch displacements just outside the field: whatever the assembler accepts must decode to the target that was written
+    if spec["part"] == 1 % spec["parts"]:
+        for name in sorted(pdp11_ref.BRANCHES) + ["sob"]:
+            for d in ((128, 129, -129, -130) if name != "sob" else (-1, -2, 64, 65)):
+                k = 2 + 2 * d if name != "sob" else 2 - 2 * d
+                e = ("bin", "+", ("dot",), apm.num(k, "d")) if k >= 0 else ("bin", "-", ("dot",), apm.num(-k, "d"))
+                ops = ([("reg", 2)] if name == "sob" else []) + [("br", e)]
+                f = apm.SrcFile("/c01/main.mac", [apm.link(apm.num(0o2000)), apm.blk(".blkb", apm.num(0o600)), apm.insn(name, *ops), apm.blk(".blkb", apm.num(0o600))])
+                case = {"kind": "brlimit", "text": apm.r_file(f), "name": name, "target": 0o2000 + 0o600 + k}
+                res["violations"].extend(run_case(case, cnt))
+                cnt["out_of_field_branches"] = cnt.get("out_of_field_branches", 0) + 1
+                res["evaluations"] += 1
     for i in range(0, len(mine), 300):
         group = mine[i:i + 300]
         base = bases[(i // 300 + spec["part"]) % len(bases)]
@@ -251,6 +263,18 @@ def run_case(case, cnt=None):
         cnt = {"insn_statements_decoded": 0, "programs": 0, "trace_entries_matched": 0, "ext_words_checked": 0}
     out = []
     if case.get("kind") == "names":
+        return out
+    if case.get("kind") == "brlimit":
+        from vlib import pdp11_ref
+        o = asm.assemble([("/c01/main.mac", case["text"])], wall=60)
+        if o.cls == "ok":
+            at = 0o600
+            w = int.from_bytes(o.code[at:at + 2], "little")
+            op, ops, n = pdp11_ref.decode([w], 0o2000 + at)
+            got = [x[1] for x in ops if x[0] == "B"]
+            if not got or got[0] != case["target"] & 0xFFFF:
+                out.append({"what": f"'{case['text'].splitlines()[2]}' (target {case['target']:#o}, outside the displacement field) was accepted and emits {w:#o}, "
+                                    f"which a PDP-11 decodes as {op} to {got[0] if got else None:#o}", "case": case})
         return out
 
     def viol(what):
